@@ -114,5 +114,8 @@ def add_resize_outputs_effect_target(eng):
     t.local_containers = ("removed_outputs", "new_outputs")
     # the two loops AFTER the validation loop are the mutation: they may write the detached outputs' slots and this node's
     # annotations (the validation loop keeps the default frame: it must be store-free)
-    t.loops = {"for output in removed_outputs": LoopSpec(invariant=[], modifies=["Value._producer", "Value._index", "Node.device_configurations", "$alloc"])}
+    # (keyed by ordinal: the validation loop is loop 0 and must not inherit this frame even if it is rewritten to iterate the
+    #  same variable)
+    mutation = LoopSpec(invariant=[], modifies=["Value._producer", "Value._index", "Node.device_configurations", "$alloc"])
+    t.loops = {1: mutation, 2: mutation}
     eng.add_target(t)
